@@ -20,6 +20,7 @@ from __future__ import annotations
 
 from typing import Any, Callable, Iterable, Iterator, List, Mapping, Optional, Type
 import attr
+import grpc
 from vizier._src.service import constants
 from vizier._src.service import resources
 from vizier._src.service import vizier_client
@@ -179,6 +180,13 @@ class Study(client_abc.StudyInterface):
       trial = self._client.get_trial(trial_id)
       return self._trial_client(trial)
     except KeyError as err:
+      raise ResourceNotFoundError(
+          f'Study {self.resource_name} does not have Trial {trial_id}.'
+      ) from err
+    except grpc.RpcError as err:
+      # The same lookup failure, reported by a remote service.
+      if err.code() != grpc.StatusCode.NOT_FOUND:  # pytype:disable=attribute-error
+        raise
       raise ResourceNotFoundError(
           f'Study {self.resource_name} does not have Trial {trial_id}.'
       ) from err
